@@ -25,6 +25,7 @@ type hreg struct {
 	par     bool
 	listen  int    // number of listeners to add on the same pattern
 	lrename bool   // add the listener with renamed placeholders (acceptance unspecified)
+	lfirst  bool   // with lrename: the renamed listener is registered BEFORE the handler (then the handler's registration is the conflicting one)
 	optList bool   // register the listener through Handler.Listeners
 	place   string // root | sub
 }
@@ -167,8 +168,28 @@ func build(cfg *config) (ops []rec, root *res.Mux, mountFailed bool) {
 				hs.Listeners = map[string]func(*res.Event){local: mkListener(l)}
 			}))
 		}
+		preListener := false
+		if h.lrename && h.lfirst && h.listen > 0 && !h.optList && strings.Contains(local, "$x") {
+			// a listener with other placeholder names is there first; whether the handler is then accepted is
+			// its own outcome (recorded below) - if it is, lookups report the handler's names
+			lid++
+			l := lid
+			lp := strings.ReplaceAll(local, "$x", "$q")
+			lfull := strings.ReplaceAll(full, "$x", "$q")
+			lacc := core.Catch(func() { mux.AddListener(lp, mkListener(l)) }) == nil
+			lr := rec{"k": "listen", "pat": core.Chars(lfull), "pats": lfull, "lid": l, "acc": lacc}
+			ops = append(ops, lr)
+			if viaSub {
+				subOps = append(subOps, lr)
+			}
+			h.listen--
+			preListener = lacc
+		}
 		acc := core.Catch(func() { mux.Handle(local, opts...) }) == nil
 		r := rec{"k": "handle", "pat": core.Chars(full), "pats": full, "grp": core.Chars(h.grp), "grps": h.grp, "par": h.par, "id": id, "acc": acc, "via": via, "local": local}
+		if preListener {
+			r["via"] = "through" // the handler's names conflict with the listener's: acceptance is not judged, routing is
+		}
 		ops = append(ops, r)
 		if viaSub {
 			subOps = append(subOps, r)
@@ -426,7 +447,7 @@ func Run(c *core.Ctx) {
 			plan := rng.Intn(len(plans))
 			mk([]string{"", "s"}[rng.Intn(2)], plan, rng.Intn(2) == 0,
 				hreg{toks: p, place: []string{"root", "sub"}[rng.Intn(2)], grp: groups[rng.Intn(5)], listen: rng.Intn(2), optList: rng.Intn(3) == 0},
-				hreg{toks: q, place: []string{"root", "sub"}[rng.Intn(2)], grp: groups[rng.Intn(5)], listen: rng.Intn(3), lrename: rng.Intn(4) == 0})
+				hreg{toks: q, place: []string{"root", "sub"}[rng.Intn(2)], grp: groups[rng.Intn(5)], listen: rng.Intn(3), lrename: rng.Intn(4) == 0, lfirst: rng.Intn(2) == 0})
 		}
 	}
 	// (4) random triples / quadruples of patterns up to 3 tokens in every arrangement
